@@ -54,7 +54,9 @@ def g3_count_inflation(name, data, boxes):
             continue
         p = at + hdr + off
         true = struct.unpack(">I", data[p:p + 4])[0]
-        for v in (true + 1, 1 << 16, 1 << 31, (1 << 32) - 1):
+        for v in (0, true - 1, true + 1, 1 << 16, 1 << 31, (1 << 32) - 1):
+            if v < 0 or v == true:
+                continue
             m = bytearray(data)
             m[p:p + 4] = struct.pack(">I", v & 0xffffffff)
             res.append(("G3/%s@%d:%s/count=%d" % (name, at, typ.decode("latin1"), v), "file", bytes(m)))
@@ -128,7 +130,7 @@ def run(ctx):
                             what="Robust.tla totality invariant violated")
     ctx.cov["bounds"] = {"G1": "%d shape sequences (all pairs; triples behind %s) over 56 box variants" % (len(g1_items), "4 heads" if q else "every head"),
                          "G2": "size field of every box in {0,1,7,8,9,true+-1,2^31,2^32-1} and largesize in {0,15,16,2^63}",
-                         "G3": "count fields of 16 counted box types set to {true+1, 2^16, 2^31, 2^32-1}",
+                         "G3": "count fields of 16 counted box types set to {0, true-1, true+1, 2^16, 2^31, 2^32-1}",
                          "G4": "truncation at every box boundary +-{0,1,4,8,hdr+4}; every byte for files <= 2 KiB",
                          "G5": "single deletion and adjacent swap of top-level and second-level boxes",
                          "bases": "%d files (corpus + seeded slice of G1)" % nsel,
